@@ -153,6 +153,28 @@ func vfhC07Shapes() {
 	vfAssert(err == nil && hasBB == (bbox && !g.IsEmpty()), "bbox header presence")
 	if hasBB {
 		vfAssert(env.XYEnvelope == g.Envelope(), "bbox header is the XY envelope")
+		// Z and M ranges of the header are those of the control points
+		seq := g.DumpCoordinates()
+		zlo, zhi, mlo, mhi := 0.0, 0.0, 0.0, 0.0
+		for i := 0; i < seq.Length(); i++ {
+			c := seq.Get(i)
+			if i == 0 || c.Z < zlo {
+				zlo = c.Z
+			}
+			if i == 0 || c.Z > zhi {
+				zhi = c.Z
+			}
+			if i == 0 || c.M < mlo {
+				mlo = c.M
+			}
+			if i == 0 || c.M > mhi {
+				mhi = c.M
+			}
+		}
+		a, b, ok := env.ZRange.MinMax()
+		vfAssert(ok == ct.Is3D() && (!ok || (a == zlo && b == zhi)), "the header's Z range is the range of the Z ordinates")
+		a, b, ok = env.MRange.MinMax()
+		vfAssert(ok == ct.IsMeasured() && (!ok || (a == mlo && b == mhi)), "the header's M range is the range of the M ordinates")
 	}
 	vfReach("end")
 }
